@@ -20,7 +20,7 @@ from collections import Counter
 import numpy as np
 import pandas as pd
 
-from ._stateful_util import Reporter, WorkResult, chunked, code, merge, pmap
+from ._stateful_util import Reporter, WorkResult, chunked, code, guard, merge, pmap
 
 LEVELS = ["p", "q", "r"]
 NEW_LEVELS = ["y", "z"]
@@ -413,8 +413,14 @@ def _worker(cases):
                 warnings.simplefilter("ignore")
                 mm = model_matrix(formula, train, output=output, context={})
         except Exception as e:  # noqa: BLE001
-            res.case(key, nontrivial=False)
-            res.stats[("train-failed", type(e).__name__)] += 1
+            # every formula of this grid fits on its training frame: failing to record the spec at all is reported
+            # against the columns clause (no spec, no columns), not skipped
+            res.case(key, True)
+            res.fail("C09.columns.unchanged", f"fit-raises-{type(e).__name__}",
+                     {"formula": formula, "output": output, "scenario": scen, "train": c["train"], "new": c["new"],
+                      "code": code(WITNESS.format(train=c["train"], new=c["train"], formula=formula, output=output,
+                                                  scenario="same", clause="C09.columns.unchanged", zero_cols=[], subset=None))},
+                     f"recording the spec for {formula!r} raised {type(e).__name__}: {e}"[:600])
             continue
         changed = "x" if scen.startswith("kind:num->cat") else "a"
         for sub_mode, subset in _subsets(mm.model_spec, changed):
@@ -473,7 +479,7 @@ def run_bounded(ctx):
         for c in cases:
             c["quick"] = not ctx.thorough
         stats = Counter()
-        merge(b, rep, pmap(_worker, chunked(cases, 32)), stats)
+        merge(b, rep, pmap(guard("vf.bounded.c09", "_worker", "C09.columns.unchanged"), chunked(cases, 32)), stats)
         failed = {k[1]: v for k, v in stats.items() if k[0] == "train-failed"}
         if failed:
             ctx.notes.append(f"bounded:train-followup-pairs: pairs skipped because the training materialization failed: {failed}")
@@ -493,5 +499,5 @@ def run_bounded(ctx):
         rep = Reporter(ctx, b)
         cases = _with_followup_dtypes(_random_cases(rng, n_random), False)
         stats = Counter()
-        merge(b, rep, pmap(_worker, chunked(cases, 32)), stats)
+        merge(b, rep, pmap(guard("vf.bounded.c09", "_worker", "C09.columns.unchanged"), chunked(cases, 32)), stats)
         rep.close()
